@@ -59,6 +59,27 @@ def run(chk, replay=None):
                               weight=lambda e: 2000 + len(e.get("evs", [])))
     chk.add_tv(res)
     evs = core.read_ndjson(trace)
+    # the same protocol in the checked build profile (debug assertions of the relation store and of the sieves, overflow
+    # checks) on the small inputs, where a pool worker meets the ends of the polynomial supply
+    if not replay or replay["event"].get("profile") == "relcheck":
+        w2 = core.workdir("c04", "relcheck")
+        trace2 = run_sharded("c04", chk, w2, list(extra) + ["--maxbits", 66, "--sels", "Siqs,Mpqs,Qs"], profile="relcheck")
+        if replay:
+            replay_keep(trace2, replay)
+        evs2 = core.read_ndjson(trace2)
+        for e in evs2:
+            e["profile"] = "relcheck"
+            if "run" in e:
+                e["run"] = "%s/relcheck" % e["run"]
+        core.write_ndjson(trace2, evs2)
+        res2 = core.validate_trace("sieveproto/SieveProtoTrace.tla", "SieveProtoTrace.cfg", trace2, group_key="case", timeout=1700,
+                                   weight=lambda e: 2000 + len(e.get("evs", [])), tag="SieveProtoTrace-relcheck")
+        chk.add_tv(res2)
+        chk.cov["runs_in_checked_profile"] = sum(1 for e in evs2 if e["op"] == "run")
+        if not replay:
+            evs = evs + evs2
+        else:
+            evs = evs2
     runs = [e for e in evs if e["op"] == "run"]
     # non-trivial: a run with a pool (>= 2 threads) in which at least two threads inserted relations or ran units
     def key(e):
